@@ -36,10 +36,10 @@ StepsTwo == {None, 1, -1, 2, -2}
 CmpAll   == {None, -1, 2, -2}
 CmpFew   == {None, -1}
 
-RootsQuick == {<<"A", "-", "R", "C", "A", "G">>}
+RootsQuick == {<<"A", "?", "-", "R", "T", "C", "A">>}
 RootsThorough == {<<"A", "A", "C", "-", "R", "G", "T">>,
                   <<"-", "A", "?", "C", "N", "T", "-">>,
-                  <<"A", "C", "G", "T", "A", "C", "G">>,
+                  <<"A", "T", "G", "A", "T", "A", "A">>,
                   <<"-", "?", "-">>}
 
 L == Len(root)
@@ -150,6 +150,25 @@ Windows(w, st, s0, e0) ==
         LET ix == SubSeq(idx, ps[j] + 1, ps[j] + w)
         IN [str |-> DisplayOf(ix, comp), bounds |-> BoundsOf(ix, comp)]]
 
+(* ---- translation: the displayed string of a view is what is translated ------ *)
+(* GeneticCode.tla (property C12) owns the NCBI tables and the documented stop    *)
+(* handling of get_translation / has_terminal_stop / trim_stop_codon on plain      *)
+(* strings; a view of monomers only must answer as its displayed string does, and  *)
+(* trim_stop_codon returns the view self[:-3], which lies where SeqView says.      *)
+GC == INSTANCE GeneticCode WITH TableCodes <- {1}, SeqCodes <- {1}, MaxLen <- 0, OptLen <- 0, MaxCodons <- 0,
+                                PairCodons <- 0, LongLens <- {}, SymLen <- 0, inp <- <<>>
+Translation ==
+    IF ~IsStrict(D) THEN [ok |-> FALSE]
+    ELSE [ok |-> TRUE,
+          get_translation |-> {<<inc, trim, iok, GC!GetTranslationOutcomes(1, D, inc, trim, iok)>> :
+                                   inc \in BOOLEAN, trim \in BOOLEAN, iok \in BOOLEAN},
+          has_terminal_stop |-> {<<strict, GC!HasStopOutcome(1, D, strict)>> : strict \in BOOLEAN},
+          trim_stop_codon |-> {<<strict,
+                                 IF GC!StrictRefuses(D, strict) THEN [refused |-> TRUE]
+                                 ELSE LET ix == IF GC!HasTerminalStop(1, D) THEN SubSeq(idx, 1, Len(idx) - 3) ELSE idx
+                                      IN [refused |-> FALSE, str |-> DisplayOf(ix, comp), bounds |-> BoundsOf(ix, comp)]>> :
+                                 strict \in BOOLEAN}]
+
 (* the second operand of a comparison: the single slice root[a:b:k] of an       *)
 (* independent sequence object with the same root string *)
 CArgs == {None} \cup {x \in 0..L : x % CmpEvery = 0}
@@ -186,6 +205,7 @@ Answers ==
      array |-> ArrayOf(D),
      fasta |-> {<<b, Fasta(D, b)>> : b \in {60, 2, 3}},
      phylip |-> Phylip(D),
+     translation |-> Translation,
      cmp |-> {Cmp(a, b, k) : a \in CArgs, b \in CArgs, k \in CmpSteps}]
 
 (* ================================== behaviour =============================== *)
@@ -260,6 +280,13 @@ WindowLaw ==
     /\ LET ws == Windows(2, 1, None, None)
            vb == BoundsOf(idx, comp)
        IN \A j \in DOMAIN ws : ws[j].bounds[2] >= vb[2] /\ ws[j].bounds[4] <= vb[5]
+(* on monomers the complement table of the views is the one of the genetic code  *)
+(* module, so translating the rc view is translating the minus strand, and a      *)
+(* trimmed view displays what trimming the string gives *)
+TranslateLaw ==
+    IsStrict(D) =>
+        /\ DisplayOf(Reverse(idx), ~comp) = GC!Rc(D)
+        /\ LET t == CHOOSE x \in Translation.trim_stop_codon : x[1] = FALSE IN t[2].str = GC!TrimStop(1, D)
 (* wrapped FASTA holds exactly the residues *)
 FastaLaw == \A b \in {2, 3, 60} :
     SelectSeq(Fasta(D, b), LAMBDA c : c # "\n") = <<">">> \o Name \o D
